@@ -270,6 +270,67 @@ def extract_state(obj, name):
             "fmts": fmts, "strform": strform}
 
 
+def string_fit_runs(case):
+    """StringDiscretizer.fit_feature on every qualitative training column holding non-string values"""
+    import pandas as pd
+    from AutoCarver.discretizers.utils.base_discretizers import nan_unique
+    from AutoCarver.discretizers.utils.type_discretizers import fit_feature
+
+    runs = []
+    for f in case["features"]:
+        if f["kind"] == "quant" or "hand" in f:
+            continue
+        vals = decs(f["values"])
+        if all(isinstance(v, str) or C.is_nan(v) for v in vals):
+            continue
+        col = pd.Series(vals, dtype=object)
+        uniques = list(nan_unique(col))
+        r = {"name": f["name"], "uniques": encs(uniques), "has_nan": bool(col.isna().any()),
+             "table": [[enc(v), py_strform(v)] for v in uniques if not isinstance(v, str)]}
+        try:
+            _, order = fit_feature(f["name"], pd.Series(vals, dtype=object), "__NAN__")
+            r["keys"] = encs(list(order))
+            r["content"] = [[enc(k), encs(list(v))] for k, v in order.content.items()]
+        except Exception as e:  # noqa: BLE001
+            r["exc"] = C.exc_class(e)
+        runs.append(r)
+    return runs
+
+
+def oracle_sf(r):
+    if "exc" in r:
+        return False, f"StringDiscretizer.fit_feature raised ({r['exc']}) on feature {r['name']}"
+    keys = decs(r["keys"])
+    content = [[dec(k), decs(vs)] for k, vs in r["content"]]
+    tbl = [[dec(v), s] for v, s in r["table"]]
+    for v in decs(r["uniques"]):
+        form = v if isinstance(v, str) else next(s for k, s in tbl if veq(k, v))
+        holders = [k for k, vs in content if isin(v, vs)]
+        if len(holders) != 1 or not veq(holders[0], form) or not isin(form, keys):
+            return False, (f"feature {r['name']}: StringDiscretizer puts {v!r} in group(s) {holders!r}, "
+                           f"not under its string form {form!r}")
+    return True, ""
+
+
+def coq_sfcase(r):
+    uniq = decs(r["uniques"])
+    nums = numbers_of(uniq)
+    if "keys" in r:
+        nums += numbers_of(decs(r["keys"])) + [v for k, vs in r["content"] for v in numbers_of(decs(vs) + [dec(k)])]
+    sc = C.Scale(0).fit([float(x) if not isinstance(x, (int, np.integer)) else int(x) for x in nums])
+
+    def v(x):
+        return C.cval(x, sc)
+
+    if "exc" in r:
+        impl = "SFAssert" if r["exc"] == "assert" else "SFInternal"
+    else:
+        impl = ("(SFOk " + C.clist([v(k) for k in decs(r["keys"])]) + " "
+                + C.clist([C.cpair(v(dec(k)), C.clist([v(x) for x in decs(vs)])) for k, vs in r["content"]]) + ")")
+    return ("mkSF " + C.clist([C.cpair(v(dec(k)), f"(VStr {C.cstr(s)})") for k, s in r["table"]]) + " "
+            + C.clist([v(x) for x in uniq]) + " " + C.cbool(r["has_nan"]) + ' (VStr "__NAN__") ' + impl)
+
+
 def benign_value(col):
     for v in col:
         if not C.is_nan(v):
@@ -434,11 +495,14 @@ def coq_shards_for(cases, outs, verdict_fn, per_shard=12):
         for c, o in part:
             tcs = [coq_tcase(st, *thin_cells(st, r["cells"], r["out"]), fitted=c["cls"] != "Base")
                    for st, r in zip(o["features"], o["runs"])]
-            body.append(C.clist(tcs))
-        txt = ("From AC.Model Require Import Base GroupedList Labels Transform FormatRule CheckC04 CheckC05.\n"
+            sfs = [coq_sfcase(r) for r in o.get("string_fit", [])]
+            body.append(C.cpair(C.clist(tcs), C.clist(sfs)))
+        txt = ("From AC.Model Require Import Base GroupedList Labels Transform FormatRule CheckC04 CheckC05 "
+               "StringForm.\n"
                "Open Scope string_scope.\n"
-               "Definition cases : list (list tcase) := [\n  " + ";\n  ".join(body) + "\n].\n"
-               f"Eval vm_compute in map (verdicts {verdict_fn}) cases.\n")
+               "Definition cases : list (list tcase * list sfcase) := [\n  " + ";\n  ".join(body) + "\n].\n"
+               f"Eval vm_compute in map (fun p => worst (map {verdict_fn} (fst p) ++ map verdict_sf (snd p))) "
+               "cases.\n")
         shards.append(hexify(txt))
     return shards
 
@@ -581,8 +645,11 @@ class C04(Prop):
         "Discretizer classes hard-code output_dtype='str'/dropna=True; the other combinations are "
         "obtained by editing these two fields in the object's JSON before load_discretizer",
         "fits that raise (any class) are skipped here: they belong to C08",
-        "CPython's f'{x:.3e}' is an oracle table; pandas replace/select are glue covered only by "
-        "the correspondence",
+        "CPython's f'{x:.{n}e}' (n=3..17) and str() are oracle tables (the digit-selection rule of "
+        "format_quantiles and the grouping rule of StringDiscretizer.fit_feature are modelled); pandas "
+        "replace/select are glue covered only by the correspondence",
+        "Model/StringForm.v (StringDiscretizer.fit_feature) is tied by correspondence and closed "
+        "examples only; its general theorem (every raw value ends under its string form) is not proved",
     ]
     trusted_extra = ["state extraction in harness/props/c04.py (values_orders list+content, "
                      "labels_per_values, features_dropna read from the fitted object)"]
@@ -648,11 +715,15 @@ class C04(Prop):
             else:
                 cs, os_ = dedup_pairs(cells[n], outs[n])
                 runs.append({"cells": cs, "out": os_})
-        return {"features": states, "runs": runs, "exc": exc}
+        return {"features": states, "runs": runs, "exc": exc, "string_fit": string_fit_runs(case)}
 
     def oracle(self, case, out):
         for st, r in zip(out["features"], out["runs"]):
             ok, msg = oracle_c04(st, r["cells"], r["out"])
+            if not ok:
+                return False, msg
+        for r in out.get("string_fit", []):
+            ok, msg = oracle_sf(r)
             if not ok:
                 return False, msg
         return True, ""
@@ -681,6 +752,8 @@ class C04(Prop):
         sigs = []
         for st in out.get("features", []):
             sigs += signatures_c04(st)
+        if any(not oracle_sf(r)[0] for r in out.get("string_fit", [])):
+            sigs.append("number_and_its_string_form_in_one_column")
         return sigs
 
     def shrink(self, case, out, msg):
@@ -727,7 +800,7 @@ class C04(Prop):
     def distribution(self, cases, outs):
         d = {"classes": {}, "rows": {}, "n_features": {}, "flavours": {}, "output_dtype": {},
              "dropna": {}, "json_rebuilt": 0, "skipped": {}, "groups_per_feature": {},
-             "nan_share": {}, "transform_exceptions": 0, "cells_compared": 0}
+             "nan_share": {}, "transform_exceptions": 0, "cells_compared": 0, "string_fit_runs": 0}
 
         def inc(h, k):
             h[str(k)] = h.get(str(k), 0) + 1
@@ -744,6 +817,7 @@ class C04(Prop):
                 nn = sum(1 for t in f["values"] if t[0] == "nan")
                 inc(d["nan_share"], round(nn / max(1, len(f["values"])), 1))
             if isinstance(o, dict) and "features" in o:
+                d["string_fit_runs"] += len(o.get("string_fit", []))
                 for st, r in zip(o["features"], o["runs"]):
                     inc(d["groups_per_feature"], len(st["keys"]))
                     d["cells_compared"] += len(r["cells"])
